@@ -153,3 +153,21 @@ REGISTRY["C08"] = {
         {"name": "TestC08Histories", "checks": {"quick": 400, "thorough": 20000}, "shards": {"quick": 16, "thorough": 16}, "gomaxprocs": [4, 2, 16, 8]},
     ],
 }
+
+REGISTRY["C02"] = {
+    "pkg": "props/c02",
+    "level": "exploration",
+    "level_text": ("rapid-drawn histories over an instance's life: processes with 1..3 start events (separate or merging chains, optional parallel block), "
+                   "actions {answer a pending task, start a waiter, start a waiter whose context expires, start 2..4 concurrent waiters, wait again after an "
+                   "expiry}, schedule perturbation at the start-up window. After every action the instance is brought to quiescence and the invariant is "
+                   "checked: StartAll returned; no waiter returned true while the model holds a token; a waiter with a live context never returned false; an "
+                   "expired waiter returned; once the model is empty every live and every later waiter has returned true (still blocked at the fixpoint = "
+                   "never); exactly one CeaseFlowTrace and no flow trace after it."),
+    "level_note": LOCKSTEP_TRUST + " 'Within bounded time' is decided as 'returned by the time nothing can move any more'.",
+    "technique": "rapid property test over generated call histories (stateful), model-based invariant after every step, stuck detection by goroutine snapshot",
+    "rule": ("Distinct = descriptor (start events, chain shapes, action list, perturbation seed). Non-trivial = (>=2 waiters or a repeated wait after expiry or >=2 start events) "
+             "and at least one task answered after a wait was started."),
+    "tests": [
+        {"name": "TestC02Waiters", "checks": {"quick": 120, "thorough": 4000}, "shards": {"quick": 16, "thorough": 16}, "gomaxprocs": [4, 2, 16, 1]},
+    ],
+}
